@@ -586,10 +586,47 @@ pub fn run(ctx: &Ctx) -> Report {
     st = st.merge(st_g);
     base += total_g;
 
+    // (H) the key holder's secret is any string: secrets that begin with the literals the algorithm itself uses
+    //     ("AWS4", "aws4_request", "AWS4AWS4"), that are one character, that contain '/', '+', '=', blanks, a line end
+    //     inside, non-ASCII characters, or are 100 characters long -- the key database hands out keys derived from
+    //     them through the crate's own key types; correctly signed requests are accepted on both carriers
+    {
+        let secrets: Vec<String> = vec![
+            "AWS4wJalrXUtnFEMI/K7MDENG+bPxRfiCYEXAMPLEKEY".into(), "AWS4".into(), "AWS4AWS4secret".into(), "aws4_request".into(), "aws4".into(),
+            "A".into(), " leading blank".into(), "trailing blank ".into(), "with/slash+plus=eq".into(), "inner\nline end".into(), "s\u{e9}cr\u{e8}te-cl\u{e9}".into(),
+            "k".repeat(100), "AWS4-HMAC-SHA256".into(), "0".into(), "\u{feff}bom".into(),
+        ];
+        let n_h = secrets.len() as u64 * 2 * 2;
+        let base_h = base;
+        let st_h = par_sweep(n_h, |i, st| {
+            let secret = &secrets[(i / 4) as usize];
+            let carrier = if i % 2 == 0 { Carrier::Header } else { Carrier::Query };
+            let mut plan = e2e::base_plan(carrier);
+            if (i / 2) % 2 == 1 {
+                plan.token = Some("TOKEN".into());
+            }
+            e2e::rekey(&mut plan, secret, "us-east-1", "service");
+            let case = Case { wire: WireReq::from_wire(&build(&plan).wire), cfg: cfg_for(now, false, false), prov: ProvSpec::Derive(vec![(e2e::ACCESS_KEY.to_string(), secret.clone())]) };
+            let before = st.violations.len();
+            let j = e2e::judge_into(base_h + i, &case, st);
+            if st.violations.len() > before {
+                if let Some(v) = st.violations.last_mut() {
+                    v.what = format!("secret-of-special-shape({:?}):{}", secret.chars().take(24).collect::<String>(), v.what);
+                }
+            }
+            if !j.reference.accepted() {
+                machinery_error(&format!("[H] reference refuses a request signed under secret {:?}: {:?}", secret, j.reference.error));
+            }
+            st.nontrivial(&(secret, carrier, i / 2 % 2, "secret-shape"));
+        });
+        st = st.merge(st_h);
+        base += n_h;
+    }
+
     Report {
         stats: st,
         rule: format!(
-            "requests signed by the independent reference signer from decoded data, then spelled on the wire: (A) every path of <= {} segments over {} segment values x trailing slash x {} spellings per segment x carrier x {{standard,S3}}; (B) every list of <= {} parameters over {} names x {} values, full product of {} spellings per element for <= 2 parameters and one element at a time above, x carrier; (C) 13 header sets (incl. names that are prefixes of one another, an HTTP-date or a stale ISO Date header next to X-Amz-Date, Expires / X-Amz-Expires / Content-Length bystanders) x 6 Authorization parameter orders x 4 separators x 2 leads x 3 name cases x X-Amz-Date/Date x extras signed or not; (D) 6 bodies x 5 content types x {{default, S3, fold, S3+fold}} x carrier x 4 tokens (incl. the empty one) x 6 methods x URL parameters; (E) 9 clock offsets in [-15min,+15min] incl. +-1ns from the bounds x 4 server instants x 6 date renderings x carrier; (F) 1440 rich combinations; (G) scale: 21-300 parameters over 1/3/16 names, 30 signed headers, one header with 30 values, 4 kB header and 9 kB query values with a 300 kB body, 60 path segments, a folded form of 120 parameters — each 8 times through fresh maps, both carriers. Every second case is preceded, on the same thread, by one of 7 refused requests (bad escapes half-way through a query key / value / path / form body, wrong signature, expired) so that acceptance is also checked from non-initial states. Oracle: accepted (the provider bookkeeping is C03/C14's subject and is not judged here). states = distinct reference canonical requests; non-trivial = distinct (wire request, options, clock)",
+            "requests signed by the independent reference signer from decoded data, then spelled on the wire: (A) every path of <= {} segments over {} segment values x trailing slash x {} spellings per segment x carrier x {{standard,S3}}; (B) every list of <= {} parameters over {} names x {} values, full product of {} spellings per element for <= 2 parameters and one element at a time above, x carrier; (C) 13 header sets (incl. names that are prefixes of one another, an HTTP-date or a stale ISO Date header next to X-Amz-Date, Expires / X-Amz-Expires / Content-Length bystanders) x 6 Authorization parameter orders x 4 separators x 2 leads x 3 name cases x X-Amz-Date/Date x extras signed or not; (D) 6 bodies x 5 content types x {{default, S3, fold, S3+fold}} x carrier x 4 tokens (incl. the empty one) x 6 methods x URL parameters; (E) 9 clock offsets in [-15min,+15min] incl. +-1ns from the bounds x 4 server instants x 6 date renderings x carrier; (F) 1440 rich combinations; (G) scale: 21-300 parameters over 1/3/16 names, 30 signed headers, one header with 30 values, 4 kB header and 9 kB query values with a 300 kB body, 60 path segments, a folded form of 120 parameters — each 8 times through fresh maps, both carriers; (H) 15 secrets of special shape (beginning with the literals 'AWS4' / 'aws4_request' / 'AWS4AWS4', one character, blanks, '/', '+', '=', a line end, non-ASCII, a byte-order mark, 100 characters) x carrier x token, keys handed out by a database that derives them through the crate's own key types. Every second case is preceded, on the same thread, by one of 7 refused requests (bad escapes half-way through a query key / value / path / form body, wrong signature, expired) so that acceptance is also checked from non-initial states. Oracle: accepted (the provider bookkeeping is C03/C14's subject and is not judged here). states = distinct reference canonical requests; non-trivial = distinct (wire request, options, clock)",
             nseg, SEGS.len(), NSPELL, nq, QNAMES.len(), QVALUES.len(), NSPELL
         ),
         bounds: json!({"path_segments": nseg, "query_params": nq, "cases_enumerated": base}),
